@@ -126,12 +126,12 @@ func (s *DDSketch) AddWithCount(value, count float64) error {
 		return ErrNegativeCount
 	}
 
-	if value > s.MinIndexableValue() {
+	if value >= s.MinIndexableValue() {
 		if value > s.MaxIndexableValue() {
 			return ErrUntrackableTooHigh
 		}
 		s.positiveValueStore.AddWithCount(s.Index(value), count)
-	} else if value < -s.MinIndexableValue() {
+	} else if value <= -s.MinIndexableValue() {
 		if value < -s.MaxIndexableValue() {
 			return ErrUntrackableTooLow
 		}
